@@ -6,7 +6,9 @@ import (
 	"fmt"
 	"os"
 	"path/filepath"
+	"runtime"
 	"sync"
+	"sync/atomic"
 	"time"
 
 	"github.com/influxdata/flux"
@@ -74,7 +76,11 @@ type Env struct {
 	Influx  *FakeInflux
 	Dir     string
 	ownDir  bool
+	ID      string // unique TaskMaster id (statistics are process-global and keyed by it)
+	written atomic.Int64
 }
+
+var envNo atomic.Int64
 
 type EnvOpts struct {
 	PersistTopics bool
@@ -108,7 +114,8 @@ func NewEnv(o EnvOpts) (*Env, error) {
 	if err := e.Storage.Open(); err != nil {
 		return nil, fmt.Errorf("storage open: %w", err)
 	}
-	tm := kapacitor.NewTaskMaster("main", vars.Info, e.Diag)
+	e.ID = fmt.Sprintf("tm%d", envNo.Add(1))
+	tm := kapacitor.NewTaskMaster(e.ID, vars.Info, e.Diag)
 	tm.HTTPDService = e.HTTPD
 	tm.TaskStore = nopTaskStore{}
 	tm.DeadmanService = nopDeadman{}
@@ -169,7 +176,48 @@ var DefaultDBRP = []kapacitor.DBRP{{Database: "db", RetentionPolicy: "rp"}}
 
 // Write sends points through the real ingest path.
 func (e *Env) Write(db, rp string, pts ...imodels.Point) error {
-	return e.TM.WritePoints(db, rp, imodels.ConsistencyLevelAll, pts)
+	err := e.TM.WritePoints(db, rp, imodels.ConsistencyLevelAll, pts)
+	if err == nil {
+		e.written.Add(int64(len(pts)))
+	}
+	return err
+}
+
+// Ingress returns how many written points the TaskMaster's forking goroutine has
+// finished fanning out to the task edges (statistic "ingress", incremented at the
+// end of forkPoint).  WritePoints only enqueues; a point is in a task's source
+// edge once Ingress has counted it.
+func (e *Env) Ingress() int64 {
+	data, err := vars.GetStatsData()
+	if err != nil {
+		return -1
+	}
+	var n int64
+	for _, d := range data {
+		if d.Name == "ingress" && d.Tags["task_master"] == e.ID {
+			if v, ok := d.Values["points_received"].(int64); ok {
+				n += v
+			}
+		}
+	}
+	return n
+}
+
+// WaitIngress blocks until every point accepted by Write so far has been forked
+// (exact, no sleeping guess).  A miss after the deadline is a harness failure.
+func (e *Env) WaitIngress() {
+	want := e.written.Load()
+	deadline := time.Now().Add(60 * time.Second)
+	for i := 0; e.Ingress() < want; i++ {
+		if time.Now().After(deadline) {
+			Fatalf("ingest did not drain: %d of %d points forked after 60s", e.Ingress(), want)
+		}
+		if i < 50 {
+			runtime.Gosched()
+		} else {
+			time.Sleep(100 * time.Microsecond)
+		}
+	}
 }
 
 // MustPoint builds an influx point.
